@@ -826,10 +826,14 @@ class QuantizedFloatBase(Adapter, abc.ABC):
         # rounding mode to treat 0.0 and -0.0 differently.
         nudge = 0.0
         if self.zero_median and val == 0.0:
-            # Only change the value a tiny bit so the rounding is biased
-            # towards the correct value
-            nudge = delta * self.step_mag * 0.5
-            nudge = math.copysign(nudge, val)
+            zero_pos = -lower / delta / self.step_mag
+            # 0.0 may sit exactly on a code. Then there's nothing to disambiguate, and
+            # a half-step nudge would only create a rounding tie between two codes.
+            if abs(zero_pos - round(zero_pos)) > 1e-6:
+                # Only change the value a tiny bit so the rounding is biased
+                # towards the correct value
+                nudge = delta * self.step_mag * 0.5
+                nudge = math.copysign(nudge, val)
 
         val += nudge
         val -= lower
